@@ -10,6 +10,8 @@ EXTENDS MCForest, XotSerial, XotTreeL2
 
 \* the iterator transcriptions of XotTreeL2 agree with the document-order definitions on every node
 L2AxesRefine == \A x \in Live(F.n) : L2AxesRefineAt(F.n, x)
+\* the equality family as written in src/valueaccess.rs agrees with the canonical-form definitions on every pair
+L2EqRefines == \A x, y \in Live(F.n) : L2EqRefinesAt(F.n, x, y)
 LawsHold == \A x \in Live(F.n) : LawsAt(F.n, x)
 
 \* following and preceding are converse on ordinary nodes
